@@ -15,18 +15,34 @@ import json as _json
 JSONDecodeError = _json.JSONDecodeError
 
 
+def has_non_ascii(t):
+    if isinstance(t, str):
+        return not t.isascii()
+    if isinstance(t, dict):
+        return any(has_non_ascii(k) or has_non_ascii(v) for k, v in t.items())
+    if isinstance(t, list):
+        return any(has_non_ascii(v) for v in t)
+    return False
+
+
 class Doc:
-    def __init__(self, tree, length):
-        self.tree, self.length = tree, length
+    def __init__(self, tree, length, ascii_only=True):
+        # ascii_only: the document text consists of ASCII characters only (json.dumps default ensure_ascii=True escapes the rest);
+        # otherwise a prefix of the BYTES on disk can end inside a multi-byte character
+        self.tree, self.length, self.ascii_only = tree, length, ascii_only
 
 
 class Text:
     """text of a (possibly torn) index file; also stands for the bytes object a mapper returns (`.decode()`)"""
 
-    def __init__(self, doc, k):
-        self.doc, self.k = doc, k
+    def __init__(self, doc, k, midchar=False):
+        # midchar: the cut falls inside a multi-byte character (only possible when the document is not pure ASCII)
+        self.doc, self.k, self.midchar = doc, k, midchar
 
     def decode(self, *a, **kw):
+        """bytes -> str (also what Path.read_text does): a prefix ending inside a multi-byte character cannot be decoded"""
+        if self.midchar and not self.doc.ascii_only and not self.complete():
+            raise UnicodeDecodeError("utf-8", b"", 0, 1, "unexpected end of data")
         return self
 
     def complete(self):
@@ -72,10 +88,11 @@ class JsonStub:
     def __init__(self, length=1000):
         self.length = length
 
-    def dumps(self, obj, **kw):
+    def dumps(self, obj, ensure_ascii=True, **kw):
         if kw:
             raise NotImplementedError(kw)
-        d = Doc(to_tree(obj), self.length)
+        tree = to_tree(obj)
+        d = Doc(tree, self.length, ascii_only=bool(ensure_ascii) or not has_non_ascii(tree))
         return Text(d, d.length)
 
     def loads(self, text, object_hook=None, **kw):
